@@ -113,6 +113,36 @@ func showTx(tx *bitcoin.Transaction) string {
 	return fmt.Sprintf("%d;%d;%s;%s", uint32(tx.Version), tx.Locktime, hx.JoinStrs(ins), hx.JoinStrs(outs))
 }
 
+// a different transaction of a similar shape (other field values, one more output, scripts
+// inverted and one byte longer) used as the second call of the two-call discipline
+func neighbour(tx *bitcoin.Transaction) *bitcoin.Transaction {
+	inv := func(b []byte) []byte {
+		o := make([]byte, len(b)+1)
+		for i := range b {
+			o[i] = ^b[i]
+		}
+		return o
+	}
+	n := &bitcoin.Transaction{Version: tx.Version + 1, Locktime: tx.Locktime ^ 0xffffffff}
+	for _, in := range tx.Inputs {
+		ni := &bitcoin.TransactionInput{Outpoint: &bitcoin.TransactionOutpoint{OutputIndex: in.Outpoint.OutputIndex + 1},
+			SignatureScript: inv(in.SignatureScript), Sequence: ^in.Sequence}
+		copy(ni.Outpoint.TransactionHash[:], inv(in.Outpoint.TransactionHash[:]))
+		for _, w := range in.Witness {
+			ni.Witness = append(ni.Witness, inv(w))
+		}
+		n.Inputs = append(n.Inputs, ni)
+	}
+	if len(n.Inputs) == 0 {
+		n.Inputs = append(n.Inputs, &bitcoin.TransactionInput{Outpoint: &bitcoin.TransactionOutpoint{}})
+	}
+	for _, o := range tx.Outputs {
+		n.Outputs = append(n.Outputs, &bitcoin.TransactionOutput{Value: ^o.Value, PublicKeyScript: inv(o.PublicKeyScript)})
+	}
+	n.Outputs = append(n.Outputs, &bitcoin.TransactionOutput{Value: 1, PublicKeyScript: []byte{0x6a}})
+	return n
+}
+
 func errClass(err error) string {
 	m := err.Error()
 	switch {
@@ -195,8 +225,30 @@ func exec(op string) (string, string) {
 		if tx.Hash() == stripped.Hash() {
 			he = 1
 		}
-		obs := fmt.Sprintf("%s %s %s %s %s %s %s %s %d", hexs(std), hexs(wit), decode(std), decode(wit),
-			hexs(v[:]), hexs(tx.SerializeInputs()), hexs(tx.SerializeOutputs()), hexs(l[:]), he)
+		before := showTx(tx)
+		dstd, dwit := decode(std), decode(wit)
+		ins, outs := tx.SerializeInputs(), tx.SerializeOutputs()
+		parts := func() string {
+			return fmt.Sprintf("%s %s %s %s %s %s", hexs(std), hexs(wit), hexs(v[:]), hexs(ins), hexs(outs), hexs(l[:]))
+		}
+		snapshot := parts()
+		// Second transaction through the same entry points while the results of the first one
+		// are still held: results must not share storage across calls.
+		other := neighbour(tx)
+		_ = other.Serialize(bitcoin.Standard)
+		_ = other.Serialize(bitcoin.Witness)
+		_ = other.SerializeInputs()
+		_ = other.SerializeOutputs()
+		_ = other.Hash()
+		_ = decode(other.Serialize(bitcoin.Witness))
+		obs := fmt.Sprintf("%s %s %s %s %s %s %s %s %d", hexs(std), hexs(wit), dstd, dwit,
+			hexs(v[:]), hexs(ins), hexs(outs), hexs(l[:]), he)
+		if parts() != snapshot {
+			obs += " ALIASED"
+		}
+		if showTx(tx) != before {
+			obs += " MUTATED"
+		}
 		tag := "tx"
 		if len(tx.Inputs) == 0 {
 			tag += "+zeroin"
